@@ -837,9 +837,12 @@ def Provides(*interfaces):  # pylint:disable=function-redefined
         # implementing one of them since, the cached object is stale:
         # it must list what a new declaration would list now (an interface
         # that another listed interface extends is still to be listed).
+        # Listing more than that (the class has started to implement
+        # one of them) is harmless, and the declaration stays shared.
         fresh = ProvidesClass._add_interfaces_to_cls(
             interfaces[1:], interfaces[0])
-        if spec.__bases__ != fresh:
+        listed = spec.__bases__
+        if not all(b in listed for b in fresh):
             spec = None
     if spec is None:
         spec = ProvidesClass(*interfaces)
